@@ -76,6 +76,21 @@ func genC09World(r *lib.Rng) *c09World {
 			w.defs[name] = []c09Def{{fname(a), 0, 0, l1}, {fname(b), 0, 1, l2}}
 		}
 	}
+	if r.Chance(1, 2) {
+		// an annotation class declared in two or three files: every declaration gets the duplicate warning
+		k := 2
+		if nf > 2 && r.Chance(1, 2) {
+			k = 3
+		}
+		perm := make([]int, nf)
+		for i := range perm {
+			perm[i] = i
+		}
+		r.Shuffle(nf, func(i, j int) { perm[i], perm[j] = perm[j], perm[i] })
+		for _, i := range perm[:k] {
+			lines[i] = append(lines[i], "---@class DupCls", fmt.Sprintf("---@field f%d number", i), fmt.Sprintf("local dupv%d = {}", i), fmt.Sprintf("print(dupv%d)", i))
+		}
+	}
 	for i := 0; i < nf; i++ {
 		w.files[fname(i)] = strings.Join(lines[i], "\n") + "\n"
 	}
@@ -224,7 +239,7 @@ func runC09(res *lib.Result, tier string, seed int64, args []string) error {
 	if tier == "thorough" {
 		nW, reps = 400, 8
 	}
-	res.Rule = "workspaces of 2-4 files defining 2-5 globals, each in one or two files (both at top level on different lines; on the same line number; nested in a do-block earlier vs top level later and the reverse), a user file calling every global, optionally two equally ranked module files, optionally four same-named modules in sibling directories required from inside one of them; each workspace is analysed 5 (thorough: 8) times with GOMAXPROCS in {1,2,16}, shuffled file creation order and the Go runtime's random map iteration; normalised diagnostics of every file, definition / hover / references of every global use, workspace and document symbols must be identical in all runs; for a global with a dominating definition (Lean: Merge.dominantOf, theorem dominant_wins_any_order) go-to-definition must lead to it in every run; non-trivial = the workspace has a global defined in two files; distinct by workspace"
+	res.Rule = "workspaces of 2-4 files defining 2-5 globals, each in one or two files (both at top level on different lines; on the same line number; nested in a do-block earlier vs top level later and the reverse), a user file calling every global, optionally an annotation class declared in two or three files, optionally two equally ranked module files, optionally four same-named modules in sibling directories required from inside one of them; each workspace is analysed 5 (thorough: 8) times with GOMAXPROCS in {1,2,16}, shuffled file creation order and the Go runtime's random map iteration; normalised diagnostics of every file, definition / hover / references of every global use, workspace and document symbols must be identical in all runs; for a global with a dominating definition (Lean: Merge.dominantOf, theorem dominant_wins_any_order) go-to-definition must lead to it in every run; non-trivial = the workspace has a global defined in two files; distinct by workspace"
 	drv, err := lib.StartDriver()
 	if err != nil {
 		return err
